@@ -20,6 +20,7 @@ from .core import VERIF_DIR, HarnessError, run_seed
 
 REPO = os.environ.get("QSIM_REPO", "/repo")
 NPROC = int(os.environ.get("QSIM_WORKERS", "16"))
+REPLAY_DIR = os.environ.get("QSIM_REPLAY_DIR", os.path.join(VERIF_DIR, "replays"))
 CHUNK_WALL_S = int(os.environ.get("QSIM_CHUNK_WALL_S", "900"))
 
 
@@ -291,7 +292,7 @@ def run_batch(prop, tier, verif_seed, runs=None, budget_s=None):
                     k = match_known(prop, v, known)
                     key = (v["rule"], k["id"] if k else None)
                     groups.setdefault(key, []).append((i, seed, v))
-            os.makedirs(os.path.join(VERIF_DIR, "replays"), exist_ok=True)
+            os.makedirs(REPLAY_DIR, exist_ok=True)
             for (rule, kid), members in sorted(groups.items(), key=lambda kv: (kv[0][0], str(kv[0][1]))):
                 if kid is not None:
                     kf = next(k for k in known if k["id"] == kid)
@@ -329,7 +330,7 @@ def run_batch(prop, tier, verif_seed, runs=None, budget_s=None):
 
 
 def write_replay(prop, seed, tier, plan, rule, viol, mres, suffix=""):
-    path = os.path.join(VERIF_DIR, "replays", f"{prop}-{seed}{suffix}.json")
+    path = os.path.join(REPLAY_DIR, f"{prop}-{seed}{suffix}.json")
     doc = {
         "property": prop,
         "rule": rule,
